@@ -122,6 +122,8 @@ def main():
             except _mp.TimeoutError:
                 results.append((kind, idx, {"error": "HarnessError: %s task %d did not finish within the time budget of "
                                                      "%.0f s (inconclusive, not a violation)" % (kind, idx, budget)}))
+        if time.time() >= t_end:
+            _kill_descendants(os.getpid())
 
     # second engine (thorough tier): coverage-guided atheris campaigns on the clauses the module nominates
     fuzz_stats = []
@@ -312,6 +314,31 @@ class _NonDaemonProcess(mp.get_context("fork").Process):
 
 class _NonDaemonContext(type(mp.get_context("fork"))):
     Process = _NonDaemonProcess
+
+
+def _kill_descendants(root):
+    """SIGKILL every process below `root` (workers that never returned, their threads' subprocesses)"""
+    import signal
+    kids = {}
+    for d in os.listdir("/proc"):
+        if d.isdigit():
+            try:
+                with open("/proc/%s/stat" % d) as fh:
+                    st = fh.read()
+                ppid = int(st[st.rindex(")") + 2:].split()[1])
+                kids.setdefault(ppid, []).append(int(d))
+            except (OSError, ValueError, IndexError):
+                pass
+    todo, seen = [root], []
+    while todo:
+        for c in kids.get(todo.pop(), []):
+            seen.append(c)
+            todo.append(c)
+    for pid in reversed(seen):
+        try:
+            os.kill(pid, signal.SIGKILL)
+        except OSError:
+            pass
 
 
 class NonDaemonPool(mp.pool.Pool):
